@@ -41,7 +41,23 @@ CC = 'contracts/copyctors.c'
 
 FR = 'contracts/frame.c'
 
+DA = 'contracts/data.c'
+
+WR = 'contracts/writers.c'
+
 UNITS = [
+    U('Header_write', WR, 'h_Header_write', ['Header__write/contract_Header__write'],
+      ['C01', 'C03', 'C04', 'C05', 'C12', 'C13', 'C14', 'C17', 'C18', 'C10', 'C02'], unwind=137, timeout=600),
+    U('Header_write_limits', WR, 'h_Header_write', ['Header__write/contract_L_Header__write'],
+      ['C17'], unwind=137, timeout=600, props={'memsafe': [], 'ub': [], 'frame': []}),
+] + [U('Data_frame_' + c, DA, 'h_Data_frame_' + c, ['Data__frame__Frame_sz/contract_Data__frame__Frame_sz'],
+         ['C06', 'C08', 'C10', 'C13', 'C18'],
+         replace=['vf_vec_Frame_push_back/contract_vf_vec_Frame_push_back', 'vf_vec_Frame_resize/contract_vf_vec_Frame_resize',
+                  'Frame__add__Frame/contract_own_Frame__add__Frame'],
+         unwind=5, timeout=600, level='PB', bound='at most 100000 stored frames (the format holds 65535)',
+         assumes=['contracts of vf_vec_Frame_push_back / vf_vec_Frame_resize (std::vector<Frame> growth: handles of '
+                  'existing frames kept, new frames default-constructed) are assumed'])
+     for c in ('append', 'replace', 'extend')] + [
     U('Frame_add_Frame_points', FR, 'h_P_Frame_add_Frame', ['Frame__add__Frame/contract_P_Frame__add__Frame'],
       ['C01', 'C06', 'C08', 'C10', 'C13', 'C18'],
       replace=['Frame__add__Points/contract_Frame__add__Points', 'Frame__add__Analogs/contract_frameonly_Frame__add__Analogs'],
@@ -72,9 +88,9 @@ UNITS = [
       ['C02', 'C12', 'C13', 'C17', 'C18', 'C19'], replace=['c3d__hex2uint/contract_c3d__hex2uint'], unwind=6,
       timeout=120),
     U('Header_nbAnalogs', K, 'h_Header_nbAnalogs', ['Header__nbAnalogs__void/contract_Header__nbAnalogs__void'],
-      ['C05', 'C13', 'C18', 'C19'], level='PB', bound='header counts <= 65535 (16-bit header words)'),
+      ['C05', 'C13', 'C18', 'C19'], level='PB', bound='header counts <= 65535 (16-bit header words)', sat='cadical'),
     U('Header_setNbAnalogs', K, 'h_Header_setNbAnalogs', ['Header__nbAnalogs__sz/contract_Header__nbAnalogs__sz'],
-      ['C05', 'C13', 'C18', 'C19'], level='PB', bound='header counts <= 65535 (16-bit header words)'),
+      ['C05', 'C13', 'C18', 'C19'], level='PB', bound='header counts <= 65535 (16-bit header words)', sat='cadical'),
     U('Header_nbFrames', K, 'h_Header_nbFrames', ['Header__nbFrames/contract_Header__nbFrames'],
       ['C05', 'C02', 'C13', 'C18', 'C19'], level='PB', bound='header counts <= 65535 (16-bit header words)'),
     U('Header_setNbAnalogByFrame', K, 'h_Header_setNbAnalogByFrame',
@@ -83,7 +99,7 @@ UNITS = [
     U('B_Header_setNbAnalogByFrame', K, 'h_B_Header_setNbAnalogByFrame',
       ['Header__nbAnalogByFrame__sz/contract_B_Header__nbAnalogByFrame__sz'],
       ['C05'], level='B', bound='sub-frames, samples per frame and new sub-frame count <= 255 (non-linear clause)',
-      timeout=240),
+      timeout=240, sat='cadical'),
 ] + [acc(f) for f in (
     'Data__frame__sz', 'Data__frame_nonConst', 'Points__point__sz', 'Points__point_nonConst__sz',
     'Analogs__subframe__sz', 'Analogs__subframe_nonConst', 'SubFrame__channel__sz', 'SubFrame__channel_nonConst__sz',
